@@ -45,3 +45,24 @@ Theorem C15_transfer_abort_retries_auto_leave : forall st r r',
     r_lead_transferee (set_r_log r0 l) = NoneId.
 Proof. exact TickProofs.transfer_abort_retries_auto_leave. Qed.
 Print Assumptions C15_transfer_abort_retries_auto_leave.
+
+(* the election timer of a node that is not leader (Proofs/TickProofs.v): a tick before the
+   randomized timeout only advances the timer; the tick that reaches it makes a node that may
+   campaign (a voter, no snapshot pending, no committed configuration change waiting to be applied)
+   a pre-candidate or a candidate.  With the bound on the randomized timeout (below twice the
+   election timeout) this is the "within a bounded number of election timeouts somebody campaigns"
+   step of the convergence argument; the rest of it is explored, not proved. *)
+Theorem C15_election_timer_counts : forall st r r',
+  r_state r <> StateLeader -> r_election_elapsed r + 1 < r_randomized_election_timeout r ->
+  tick st r = Ok r' -> r' = set_r_election_elapsed r (r_election_elapsed r + 1).
+Proof. exact TickProofs.tick_election_counts. Qed.
+Print Assumptions C15_election_timer_counts.
+
+Theorem C15_election_timeout_fires : forall st r r',
+  r_state r <> StateLeader ->
+  r_randomized_election_timeout r <= r_election_elapsed r + 1 ->
+  promotable r = true -> has_unapplied_conf_changes st r = Ok false ->
+  tick st r = Ok r' ->
+  r_state r' = if r_pre_vote r then StatePreCandidate else StateCandidate.
+Proof. exact TickProofs.election_timeout_fires. Qed.
+Print Assumptions C15_election_timeout_fires.
